@@ -70,6 +70,9 @@ masked old/new after include) and `WithUpdatesOnly` (no seed).
                                        `ScVerif/C08/Booking.lean`): message tokens are booked periods `s/e`
                                        (`-` = unbounded side, seconds) or `nil` (no booked period); `<q>` is the
                                        request's `booking_intersects` period or `absent`
+* `bpullx <q> <u 0|1> <mask> <nBefore> <op>*`  the same with `updates_only` (no seed) and a read mask (`none`, or
+                                       `id`: the booked period is stripped, every delivered / listed value reads `nil`;
+                                       include still judges the stored period)
 -/
 namespace ScVerif.C08
 open ScVerif.Line ScVerif.C09
@@ -235,16 +238,30 @@ def periodOfTok (s : String) : Option ScVerif.C18.Period :=
     | _, _ => none
   | _ => none
 
-def handleBPull? (q n : String) (ops : List String) : Option String := do
+/-- the read masks the booking family uses: `none` (all fields) and `id` (`booked` is stripped: every value
+reads `nil`) -/
+def bookingMaskProj (m : String) : Option (String → String) :=
+  if m = "none" then some id
+  else if m = "id" then some (fun _ => "nil")
+  else none
+
+/-- `bpull` (no mask, with seed) and `bpullx <q> <updatesOnly 0|1> <mask none|id> <nBefore> <op>*`: PullBookings
+passes `WithReadMask`, `WithUpdatesOnly` and - when the request has a period - `WithInclude` to `Collection.Pull`;
+ListBookings the same mask and include to `Collection.List`. -/
+def handleBPullX? (q : String) (uo : Bool) (proj : String → String) (n : String) (ops : List String) :
+    Option String := do
   let qp ← if q = "absent" then some none else (periodOfTok q).map some
   let p : Option (Pred String String) := bookingInclude periodOfTok qp
   let n ← parseNat? n
   let ops ← ops.mapM parseAct?
   if n > ops.length then none
   let before := runActs 0 [] (ops.take n)
-  let o : PullOpts := ⟨id, none, false, id⟩
-  let seedEvs := seedFrom 0 (sortById (itemSlice p before.1))
+  let o : PullOpts := ⟨proj, none, uo, id⟩
+  let seedEvs := if uo then [] else (seedFrom 0 (sortById (itemSlice p before.1))).map (maskChange proj)
   pure (" ".intercalate (("seed=" ++ showChanges seedEvs) :: pullAfter p o before.1 (ops.drop n)))
+
+def handleBPull? (q n : String) (ops : List String) : Option String :=
+  handleBPullX? q false id n ops
 
 structure MSubCfg where
   sub : SubOpts String String
@@ -476,6 +493,10 @@ def handle? (toks : List String) : Option String :=
   | "lsched" :: n :: rest => handleLSched? n rest
   | "gsched" :: n :: rest => handleGSched? false n rest
   | "bpull" :: q :: n :: rest => handleBPull? q n rest
+  | "bpullx" :: q :: u :: m :: n :: rest => do
+    let uo ← parseFlag? u
+    let proj ← bookingMaskProj m
+    handleBPullX? q uo proj n rest
   | op :: p :: n :: ops => do
     if let some o := parseOpName? "pull" op then
     let p ← parsePred? p
